@@ -104,6 +104,7 @@ func runC05(c *Ctx) {
 		c05Flag(c, ct)
 		c05CopyClear(c, ct)
 		c05MergeFold(c, ct)
+		c05MergeCoverage(c, ct)
 	}
 }
 
@@ -1315,4 +1316,296 @@ func c05SketchCtors(c *Ctx, rule string) {
 		c.R.check(ok, rule, ctor+"/both-sides-same-kind", shortFn(f), c.fpos(f), "NewDDSketch(mapping, "+storeCtor+"(…), "+storeCtor+"(…)) with two separate stores and the caller's bin limit", found)
 	}
 	c.R.floor(rule, "named dense sketch constructors", n, 3)
+}
+
+// c05MergeCoverage (D6): the same-kind merge of a collapsing store visits the argument's indexes one by one from its
+// first (lowest: min upwards; highest: max downwards) to its last and adds each bin exactly once — into the edge slot
+// exactly when the index lies beyond the receiver's collapsing edge, otherwise into the slot of that same index. Decided
+// on every enumerated path (loops unrolled up to two visits): the k-th add reads index first ± k; an edge add has taken
+// `index beyond edge`, an own-slot add writes slot index − offset after that test failed; and the path ends only with
+// the evidence that the next index is past the argument's last one.
+func c05MergeCoverage(c *Ctx, ct collapsingType) {
+	const rule = "C05-D6"
+	tname := ct.t.Obj().Name()
+	lowest := strings.Contains(tname, "Lowest")
+	f := c.P.DeclaredMethod(ct.t, "MergeWith")
+	if f == nil {
+		return
+	}
+	paths, _ := exec(c, f, nil, 2)
+	isArgObj := func(t *Term) bool {
+		t = stripVers(t)
+		return t.Op == "extract" && t.Sym == "0" && t.Args[0].Op == "assert"
+	}
+	// fld(t) = ("s"|"o", name) for field:name(field:inner(obj)) or field:name(obj)
+	fld := func(t *Term) (string, string) {
+		t = stripVers(t)
+		if t.Op != "field" || len(t.Args) != 1 {
+			return "", ""
+		}
+		o := stripVers(t.Args[0])
+		if o.Op == "field" && o.Sym == ct.innerFld && len(o.Args) == 1 {
+			o = stripVers(o.Args[0])
+		}
+		switch {
+		case o.isParam(0):
+			return "s", t.Sym
+		case isArgObj(o):
+			return "o", t.Sym
+		}
+		return "", ""
+	}
+	fieldLin := func(who, name string) *Linear {
+		l := &Linear{Coef: map[string]int{who + "." + name: 1}, Atoms: map[string]*Term{}, Exact: true}
+		return l
+	}
+	// canonical linear form: field atoms renamed to who.name so that versions and embedding do not matter
+	canon := func(t *Term) *Linear {
+		l := linearOf(stripVers(t))
+		out := &Linear{Coef: map[string]int{}, Atoms: map[string]*Term{}, Exact: l.Exact, Const: l.Const}
+		for k, cf := range l.Coef {
+			if who, name := fld(l.Atoms[k]); who != "" {
+				out.Coef[who+"."+name] += cf
+			} else {
+				out.Coef[k] += cf
+				out.Atoms[k] = l.Atoms[k]
+			}
+		}
+		for k, v := range out.Coef {
+			if v == 0 {
+				delete(out.Coef, k)
+			}
+		}
+		return out
+	}
+	eq := func(a, b *Linear) bool {
+		d := linCombine(a, b, -1)
+		for _, v := range d.Coef {
+			if v != 0 {
+				return false
+			}
+		}
+		return d.Const == 0
+	}
+	plus := func(a *Linear, k int) *Linear {
+		out := linCombine(a, &Linear{Coef: map[string]int{}, Atoms: map[string]*Term{}, Exact: true}, 1)
+		out.Const += k
+		return out
+	}
+	first, last, edgeBound := dr.minIndex, dr.maxIndex, dr.minIndex
+	dir := 1
+	if !lowest {
+		first, last, edgeBound = dr.maxIndex, dr.minIndex, dr.maxIndex
+		dir = -1
+	}
+	nPaths, nAdds := 0, 0
+	bad := ""
+	for _, p := range paths {
+		same := false
+		for _, cd := range p.Conds {
+			if t := cd.Term; t.Op == "extract" && t.Sym == "1" && t.Args[0].Op == "assert" && cd.Taken {
+				same = true
+			}
+		}
+		if !same {
+			continue
+		}
+		// drop paths whose comparisons of one and the same difference contradict each other (the executor does not
+		// relate `!(x ≤ y)` to a later `x == y`): sign sets {−, 0, +} of a − b, intersected per difference
+		feasible := true
+		signs := map[string]int{}
+		for _, cd := range p.Conds {
+			t := cd.Term
+			if len(t.Args) != 2 || !(t.isBin("<") || t.isBin("<=") || t.isBin("==") || t.isBin("!=")) {
+				continue
+			}
+			d := linCombine(canon(t.Args[0]), canon(t.Args[1]), -1)
+			var keys []string
+			for k, v := range d.Coef {
+				if v != 0 {
+					keys = append(keys, k)
+				}
+			}
+			if len(keys) == 0 {
+				continue
+			}
+			sort.Strings(keys)
+			neg := d.Coef[keys[0]] < 0
+			key := ""
+			for _, k := range keys {
+				v := d.Coef[k]
+				if neg {
+					v = -v
+				}
+				key += fmt.Sprintf("%+d*%s", v, k)
+			}
+			cst := d.Const
+			if neg {
+				cst = -cst
+			}
+			key += fmt.Sprintf("%+d", cst)
+			const (
+				sNeg, sZero, sPos = 1, 2, 4
+			)
+			set := map[string]int{"<": sNeg, "<=": sNeg | sZero, "==": sZero, "!=": sNeg | sPos}[t.Sym]
+			if !cd.Taken {
+				set = (sNeg | sZero | sPos) &^ set
+			}
+			if neg { // the relation was about −(a − b): mirror the sign set
+				m := set & sZero
+				if set&sNeg != 0 {
+					m |= sPos
+				}
+				if set&sPos != 0 {
+					m |= sNeg
+				}
+				set = m
+			}
+			if cur, ok := signs[key]; ok {
+				set &= cur
+			}
+			signs[key] = set
+			if set == 0 {
+				feasible = false
+			}
+		}
+		if !feasible {
+			continue
+		}
+		nPaths++
+		// beyond(X): evidence about "X lies beyond the receiver's collapsing edge": +1 taken, −1 refuted, 0 none
+		beyond := func(x *Linear) int {
+			r := 0
+			for _, cd := range p.Conds {
+				t := cd.Term
+				if !(t.isBin("<") || t.isBin("<=")) {
+					continue
+				}
+				var idxT, boundT *Term
+				if lowest { // idx < s.min
+					idxT, boundT = t.Args[0], t.Args[1]
+				} else { // s.max < idx
+					idxT, boundT = t.Args[1], t.Args[0]
+				}
+				if who, name := fld(boundT); who != "s" || name != edgeBound {
+					continue
+				}
+				if !eq(canon(idxT), x) {
+					continue
+				}
+				strict := t.isBin("<")
+				switch {
+				case cd.Taken && strict:
+					r = 1
+				case !cd.Taken:
+					if r == 0 {
+						r = -1
+					}
+				}
+			}
+			return r
+		}
+		k := 0
+		refuted := false
+		pathBad := ""
+		for _, e := range p.Effects {
+			if e.Kind != "store" || e.Addr.Op != "index" {
+				continue
+			}
+			if who, name := fld(e.Addr.Args[0]); who != "s" || name != dr.bins {
+				continue
+			}
+			v := e.Val
+			var src *Term
+			if v.isBin("+") {
+				for i := 0; i < 2; i++ {
+					if stripVers(v.Args[i]).Key() == stripVers(e.Addr).Key() {
+						src = stripVers(v.Args[1-i])
+					}
+				}
+			}
+			if src == nil || src.Op != "index" {
+				continue // not an add of an argument bin (other writes are other rules' business)
+			}
+			if who, name := fld(src.Args[0]); who != "o" || name != dr.bins {
+				continue
+			}
+			nAdds++
+			idx := linCombine(canon(src.Args[1]), fieldLin("o", dr.offset), 1) // the argument index read
+			want := plus(fieldLin("o", first), dir*k)
+			if !eq(idx, want) {
+				pathBad = fmt.Sprintf("add #%d reads the argument's bin at an index that is not %s%+d", k+1, first, dir*k)
+				break
+			}
+			slot := canon(e.Addr.Args[1])
+			own := eq(linCombine(slot, fieldLin("s", dr.offset), 1), idx)
+			switch b := beyond(idx); {
+			case own:
+				if b == -1 {
+					refuted = true
+				}
+				if !refuted {
+					pathBad = fmt.Sprintf("add #%d goes to the slot of its own index although that index is not known to lie inside the receiver's edge", k+1)
+				}
+			default: // a fixed slot: the edge
+				if b != 1 {
+					pathBad = fmt.Sprintf("add #%d goes to a fixed slot without the evidence that its index lies beyond the receiver's edge", k+1)
+				}
+			}
+			if pathBad != "" {
+				break
+			}
+			k++
+		}
+		if pathBad == "" {
+			// termination: the next index is past the argument's last one
+			next := plus(fieldLin("o", first), dir*k)
+			lastL := fieldLin("o", last)
+			done := false
+			ltRef, eqRef := false, false
+			for _, cd := range p.Conds {
+				t := cd.Term
+				var a, b *Linear
+				if len(t.Args) == 2 {
+					a, b = canon(t.Args[0]), canon(t.Args[1])
+				} else {
+					continue
+				}
+				fwd := func(x, y *Linear) bool { // x ⋈ y speaks of (next, last) in iteration order
+					if lowest {
+						return eq(x, next) && eq(y, lastL)
+					}
+					return eq(x, lastL) && eq(y, next)
+				}
+				switch {
+				case t.isBin("<=") && fwd(a, b) && !cd.Taken: // !(next ≤ last)
+					done = true
+				case t.isBin("<") && fwd(a, b) && !cd.Taken: // !(next < last)
+					ltRef = true
+				case t.isBin("==") && (eq(a, next) && eq(b, lastL) || eq(b, next) && eq(a, lastL)) && !cd.Taken:
+					eqRef = true
+				case t.isBin("!=") && (eq(a, next) && eq(b, lastL) || eq(b, next) && eq(a, lastL)) && cd.Taken:
+					eqRef = true
+				}
+				// the last add was the argument's last index
+				if k > 0 {
+					prev := plus(fieldLin("o", first), dir*(k-1))
+					if t.isBin("==") && cd.Taken && (eq(a, prev) && eq(b, lastL) || eq(b, prev) && eq(a, lastL)) {
+						done = true
+					}
+				}
+			}
+			if ltRef && eqRef {
+				done = true
+			}
+			if !done {
+				pathBad = fmt.Sprintf("the merge ends after %d add(s) without the evidence that the argument's last index has been passed", k)
+			}
+		}
+		if pathBad != "" {
+			bad = firstNonEmpty(bad, pathBad+" on ["+pathSig(p)+"]")
+		}
+	}
+	c.R.check(bad == "" && nPaths > 0 && nAdds > 0, rule, tname+".MergeWith/every-bin-once", shortFn(f), c.fpos(f),
+		"the argument's indexes are visited in order from first to last, each bin added once: to the edge slot exactly beyond the receiver's edge, otherwise to the slot of its own index", firstNonEmpty(bad, fmt.Sprintf("%d same-kind path(s), %d add(s)", nPaths, nAdds)))
 }
